@@ -2,8 +2,10 @@ CONSTANTS
     MaxN = 2
     Universe = "pre"
     UnpackStaged = FALSE
+    ListedMustBeRegular = FALSE
     ManifestHashInjective = FALSE
     ExcuseImmArchive = TRUE
+    ExcuseAncLink = TRUE
     ExcuseMerged = TRUE
 SPECIFICATION Spec
 INVARIANTS OnlyAllowed RefusalTouchesNothing
